@@ -7,19 +7,25 @@ HERE = os.path.dirname(os.path.dirname(os.path.abspath(__file__)))
 rnd, prefix, first, descf = int(sys.argv[1]), sys.argv[2], int(sys.argv[3]), sys.argv[4]
 only = sys.argv[5:]
 desc = json.load(open(descf))
-ORIGIN = {7: "independent sub-agent given only the property text and a scratch worktree (no access to /verif), asked for three changes in the HARD ARITHMETIC at the heart of the property (counts, offsets, loop bounds, running variables, direction choices) that leave every assertion, bounds check and dimension choice intact",
+ORIGIN = {8: "independent sub-agent given only the property text and a scratch worktree (no access to /verif), told that simple slips have been tried many times and asked for two changes of a NOVEL kind: cross-call state, element-type / capacity / aliasing dependence, changed trait impl tables or generic bounds, interactions of two correct-looking pieces",
+          7: "independent sub-agent given only the property text and a scratch worktree (no access to /verif), asked for three changes in the HARD ARITHMETIC at the heart of the property (counts, offsets, loop bounds, running variables, direction choices) that leave every assertion, bounds check and dimension choice intact",
           6: "independent sub-agent given only the property text and a scratch worktree (no access to /verif), asked for three changes of three different kinds: (1) two cooperating sites that each look fine alone, (2) a new override / specialisation / fast path that is subtly wrong, (3) a small slip that needs an unusual input or a multi-step history to manifest",
           5: "independent sub-agent given only the property text and a scratch worktree (no access to /verif), asked for three small slips (1-12 changed lines) placed in the LESS obvious dependencies of the property (helpers three calls away, default trait methods, twin impls, size_hint, Drop, derives, constants)",
           4: "independent sub-agent given only the property text and a scratch worktree (no access to /verif), asked for three SMALL maintenance slips (1-8 changed lines: operator / constant / neighbouring variable / sibling call / moved statement / +-1 / early return / moved assertion)",
           3: "independent sub-agent given only the property text and a scratch worktree (no access to /verif), asked for a REFACTORING WITH A HIDDEN BUG (helper extraction, loop rewrite, fast path, delegation ... that breaks the property while the suite stays green)"}
 jobs = []
+BASE = {}
 for i in range(1, 21):
     pid = "C%02d" % i
     if only and pid not in only:
         continue
     for k in (1, 2, 3):
         p, dm = "%s%s/patch_%d.diff" % (prefix, pid, k), "%s%s/demo_%d.rs" % (prefix, pid, k)
-        sid = "%s-%d" % (pid, first + k - 1)
+        base = first or 1 + max([int(x.split("-")[1]) for x in os.listdir(os.path.join(HERE, "seeded")) if x.startswith(pid + "-")] + [0])
+        if not first and k > 1:
+            base = BASE[pid]
+        BASE[pid] = base
+        sid = "%s-%d" % (pid, base + k - 1)
         if os.path.exists(p) and os.path.exists(dm) and not os.path.exists(os.path.join(HERE, "seeded", sid, "meta.json")):
             jobs.append((pid, sid, p, dm))
 def run(j):
